@@ -205,6 +205,8 @@ where
     // operator has to be inserted, one entry per call that has not been closed yet
     let mut depths_of_additional_parens: SmallVec<[i64; 8]> = SmallVec::new();
     let mut paren_depth = 0i64;
+    // true as soon as a closing paren without matching opening paren has been seen
+    let mut unmatched_closing_paren = false;
     for (i, c) in text.char_indices() {
         if c == ' ' && i == cur_byte_offset {
             cur_byte_offset += 1;
@@ -218,6 +220,7 @@ where
             } else if c == ')' {
                 cur_byte_offset += 1;
                 paren_depth -= 1;
+                unmatched_closing_paren = unmatched_closing_paren || paren_depth < 0;
                 res.push(ParsedToken::<T>::Paren(Paren::Close));
                 if depths_of_additional_parens.last() == Some(&paren_depth) {
                     res.push(ParsedToken::Paren(Paren::Close));
@@ -229,6 +232,13 @@ where
                 // are added to increase the priority as expected from the function
                 // call syntax
                 cur_byte_offset += 1;
+                // replacing the operator of the comma by an opening paren must not repair
+                // a paren mismatch to the left of it
+                if unmatched_closing_paren {
+                    return Err(exerr!(
+                        "comma after too many closing parentheses, paren mismatch",
+                    ));
+                }
                 let op_idx = find_op_of_comma(&res).ok_or_else(|| {
                     exerr!("could not find operator for comma, could be operator with more than 2 args (not supported), missing operator, or paren mismatch",)
                 })?;
